@@ -157,6 +157,10 @@ def histories(ctx):
         for _ in range(npk):
             at = len(stream)
             n = rng.choice([0, 0, 1, 2, 5, 20, rng.randrange(0, 280)])
+            if rng.random() < 0.12:
+                # length-field boundaries: data fields just below / at / above a multiple of 256 octets (the length field is
+                # two octets, a carry between them is where length arithmetic goes wrong)
+                n = rng.choice([256, 512, 768, 1024, 1280, 1536, 2048] + ([4096, 8192] if ctx.thorough else [])) - rng.randrange(0, 26)
             data = bytes(rng.choice([0x18, 0x08, apids[0] & 0xFF, ids[0] >> 8, ids[0] & 0xFF, rng.randrange(256)]) for _ in range(n))
             k, t, shf, ap = rng.choice(kinds)
             if k == "tc":
